@@ -48,6 +48,21 @@ RunFrom(script, r, stop) ==
                               IF stop = 1 THEN [r2 EXCEPT !.status = "suspended"]
                               ELSE RunFrom(script, r2, IF stop = -1 THEN -1 ELSE stop - 1)
 
+\* exactly ONE event (micro-step): used where events of different validators interleave (C18, thread schedules)
+StepOne(script, r) ==
+  IF r.pc > Len(script) THEN [r EXCEPT !.status = "done"]
+  ELSE LET ev == script[r.pc] IN
+       CASE ev.e = "push" -> [r EXCEPT !.stack = Append(@, ResolveText(Top(r.stack), ev.a)), !.open = @ + 1, !.pc = @ + 1,
+                                       !.status = IF r.pc = Len(script) THEN "done" ELSE "running"]
+         [] ev.e = "pop"  -> [r EXCEPT !.stack = Front(@), !.open = @ - 1, !.pc = @ + 1,
+                                       !.status = IF r.pc = Len(script) THEN "done" ELSE "running"]
+         [] ev.e = "res"  -> LET url == ResolveText(Top(r.stack), ev.a)
+                                 r2 == [r EXCEPT !.out = Append(@, [k |-> "res", v |-> url]), !.pc = @ + 1] IN
+                             IF ev.ok THEN [r2 EXCEPT !.status = IF r.pc = Len(script) THEN "done" ELSE "running"]
+                             ELSE [r2 EXCEPT !.stack = Unwind(@, r.open), !.open = 0, !.status = "raised"]
+         [] ev.e = "yield" -> [r EXCEPT !.out = Append(@, [k |-> "yield", v |-> ev.a]), !.pc = @ + 1,
+                                        !.status = IF r.pc = Len(script) THEN "done" ELSE "running"]
+
 Fresh(stack) == [stack |-> stack, pc |-> 1, open |-> 0, out |-> <<>>, status |-> "fresh"]
 \* closing / dropping a suspended iterator: the pending finally blocks run
 CloseIt(r) == IF r.status = "suspended" THEN [r EXCEPT !.stack = Unwind(@, r.open), !.open = 0, !.status = "closed"] ELSE r
